@@ -894,41 +894,45 @@ func checkRepopulatedUse(c *core.Ctx) {
 		for _, v := range decoded {
 			n++
 			okRepl, okHandled := false, false
-			ast.Inspect(fn.Decl.Body, func(nd ast.Node) bool {
-				rs, ok := nd.(*ast.RangeStmt)
-				if !ok || core.ExprStr(rs.X) != v {
-					return true
-				}
-				for k, st := range rs.Body.List {
-					as, ok := st.(*ast.AssignStmt)
-					if !ok || len(as.Lhs) != 2 || len(as.Rhs) != 1 {
-						continue
+			// the loop may sit in a helper that was handed the decoded list
+			for _, bf := range helperClosureBound(p, fn) {
+				bf := bf
+				ast.Inspect(bf.fn.Decl.Body, func(nd ast.Node) bool {
+					rs, ok := nd.(*ast.RangeStmt)
+					if !ok || resolveText(core.ExprStr(rs.X), bf.binds) != v {
+						return true
 					}
-					call, ok := as.Rhs[0].(*ast.CallExpr)
-					if !ok || !strings.HasSuffix(p.CalleeName(info, call), "RepopulatePhysicalExpressionFunctions") {
-						continue
-					}
-					if strings.HasPrefix(core.ExprStr(as.Lhs[0]), v+"[") && core.ExprStr(call.Args[0]) == core.ExprStr(as.Lhs[0]) {
-						okRepl = true
-					}
-					okVar := core.ExprStr(as.Lhs[1])
-					for _, later := range rs.Body.List[k+1:] {
-						if is, ok := later.(*ast.IfStmt); ok && core.ExprStr(is.Cond) == "!"+okVar {
-							for _, b := range is.Body.List {
-								switch x := b.(type) {
-								case *ast.ReturnStmt:
-									okHandled = true
-								case *ast.ExprStmt:
-									if cl, ok := x.X.(*ast.CallExpr); ok && core.ExprStr(cl.Fun) == "panic" {
+					for k, st := range rs.Body.List {
+						as, ok := st.(*ast.AssignStmt)
+						if !ok || len(as.Lhs) != 2 || len(as.Rhs) != 1 {
+							continue
+						}
+						call, ok := as.Rhs[0].(*ast.CallExpr)
+						if !ok || !strings.HasSuffix(p.CalleeName(info, call), "RepopulatePhysicalExpressionFunctions") {
+							continue
+						}
+						if strings.HasPrefix(resolveText(core.ExprStr(as.Lhs[0]), bf.binds), v+"[") && core.ExprStr(call.Args[0]) == core.ExprStr(as.Lhs[0]) {
+							okRepl = true
+						}
+						okVar := core.ExprStr(as.Lhs[1])
+						for _, later := range rs.Body.List[k+1:] {
+							if is, ok := later.(*ast.IfStmt); ok && core.ExprStr(is.Cond) == "!"+okVar {
+								for _, b := range is.Body.List {
+									switch x := b.(type) {
+									case *ast.ReturnStmt:
 										okHandled = true
+									case *ast.ExprStmt:
+										if cl, ok := x.X.(*ast.CallExpr); ok && core.ExprStr(cl.Fun) == "panic" {
+											okHandled = true
+										}
 									}
 								}
 							}
 						}
 					}
-				}
-				return true
-			})
+					return true
+				})
+			}
 			c.Decide(okRepl && okHandled, "USE", key+"/"+v, fn.Decl.Pos(), 2, "each element replaced by its repopulated form; failure handled",
 				fmt.Sprintf("%s comes off the wire without function implementations: every element must be replaced by RepopulatePhysicalExpressionFunctions' result and a failed repopulation must stop the call (replaced=%v, failure handled=%v)", v, okRepl, okHandled))
 		}
